@@ -176,3 +176,80 @@ def call_oracle(ctx, fn: FunctionInfo, env: dict, depth: int = 2):
         return (not v) if neg else v
 
     return oracle
+
+
+def expr_oracle(fn: FunctionInfo, env: dict):
+    """CFG oracle: evaluate a test after substituting single-definition
+    locals and the constants of `env`; understands dict / list / tuple / set
+    literals (`in`, `.get(k)`, `[k]`), `is None`, `==`."""
+    from sa.norm import expand
+
+    UNK = object()
+
+    def ev(e):
+        if isinstance(e, ast.Constant):
+            return e.value
+        d = dotted(e) if isinstance(e, (ast.Name, ast.Attribute)) else None
+        if d is not None and d in env:
+            return env[d]
+        if isinstance(e, ast.Dict):
+            out = {}
+            for k, v in zip(e.keys, e.values):
+                kk = ev(k) if k is not None else UNK
+                if kk is UNK:
+                    return UNK
+                out[kk] = v
+            return out
+        if isinstance(e, (ast.List, ast.Tuple, ast.Set)):
+            vals = [ev(x) for x in e.elts]
+            return UNK if any(v is UNK for v in vals) else vals
+        if isinstance(e, ast.Call) and isinstance(e.func, ast.Attribute) and \
+                e.func.attr == "get" and 1 <= len(e.args) <= 2:
+            tbl, k = ev(e.func.value), ev(e.args[0])
+            if isinstance(tbl, dict) and k is not UNK:
+                if k in tbl:
+                    return ("value", tbl[k])
+                return ev(e.args[1]) if len(e.args) == 2 else None
+            return UNK
+        if isinstance(e, ast.Subscript):
+            tbl, k = ev(e.value), ev(e.slice)
+            if isinstance(tbl, dict) and k is not UNK and k in tbl:
+                return ("value", tbl[k])
+            return UNK
+        if isinstance(e, ast.UnaryOp) and isinstance(e.op, ast.Not):
+            v = ev(e.operand)
+            return UNK if v is UNK else (not v)
+        if isinstance(e, ast.Compare) and len(e.ops) == 1:
+            a, b = ev(e.left), ev(e.comparators[0])
+            op = e.ops[0]
+            if a is UNK or b is UNK:
+                return UNK
+            if isinstance(op, ast.Is):
+                return a is b if (a is None or b is None) else UNK
+            if isinstance(op, ast.IsNot):
+                return a is not b if (a is None or b is None) else UNK
+            if isinstance(a, tuple) or isinstance(b, tuple) and not \
+                    isinstance(op, (ast.In, ast.NotIn)):
+                return UNK
+            try:
+                if isinstance(op, ast.Eq):
+                    return a == b
+                if isinstance(op, ast.NotEq):
+                    return a != b
+                if isinstance(op, ast.In):
+                    return a in b
+                if isinstance(op, ast.NotIn):
+                    return a not in b
+            except TypeError:
+                return UNK
+        return UNK
+
+    def oracle(test: ast.AST):
+        v = ev(expand(fn, test))
+        if v is UNK:
+            return None
+        if isinstance(v, tuple) and v and v[0] == "value":
+            return None  # some object: truthiness unknown here
+        return bool(v)
+
+    return oracle
